@@ -88,6 +88,8 @@ LAYOUTS = {
     "repeated_mode_in_call": ({"inc.xbb": inc2(), "main.xbb": ["name main", "version 1.0", 'include "inc.xbb"', "", "inc | [4, 4]", "Vac | 4"]}, "main.xbb"),
     "bad_arity_repeated_mode": ({"inc.xbb": inc2(), "main.xbb": ["name main", "version 1.0", 'include "inc.xbb"', "", "inc | [4, 4, 5]"]}, "main.xbb"),
     "bad_arity_repeated_mode_three": ({"inc3.xbb": inc3(), "main.xbb": ["name main", "version 1.0", 'include "inc3.xbb"', "", "inc3 | [1, 2, 1, 2]"]}, "main.xbb"),
+    "template_param_names_like_array_elements": ({"t.xbb": ["name Sub", "version 1.0", "", "Rgate({w_0_1}) | %(a)s", "BSgate({w_0_1}-{d_10_3}, {phi}) | [%(a)s, %(b)s]"],
+                                                  "main.xbb": ["name main", "version 1.0", 'include "t.xbb"', "", "Sub(w_0_1=%(f)s, phi=%(f)s, d_10_3=%(f)s) | [%(m)s, %(m)s]"]}, "main.xbb"),
     "target_and_include": ({"inc.xbb": inc2(), "main.xbb": ["name main", "version 1.0", "target X8 (shots=%(i)s)", 'include "inc.xbb"', "", "inc | [%(m)s, %(m)s]"]}, "main.xbb"),
     # mismatched calls must be refused
     "bad_arity": ({"inc.xbb": inc2(), "main.xbb": ["name main", "version 1.0", 'include "inc.xbb"', "", "inc | [%(m)s, %(m)s, %(m)s]"]}, "main.xbb"),
